@@ -233,7 +233,26 @@ func mutate(rng *rand.Rand, doc []byte, st *map[string]int) []byte {
 		}
 	}
 	for i := 0; i < k; i++ {
-		switch rng.Intn(9) {
+		switch rng.Intn(10) {
+		case 9: // replace one element of a JSON array (or one CSV field) by a value of another JSON type
+			if a := bytes.IndexByte(d, '{'); a >= 0 {
+				// pick the n-th object
+				starts := []int{}
+				for p := 0; p < len(d); p++ {
+					if d[p] == '{' {
+						starts = append(starts, p)
+					}
+				}
+				a = starts[rng.Intn(len(starts))]
+				if b := bytes.IndexByte(d[a:], '}'); b >= 0 {
+					repl := [][]byte{[]byte("null"), []byte("5"), []byte(`"x"`), []byte("[]"), []byte("true"), []byte("{}"), []byte(`{"date":null}`), []byte(`{"date":5}`)}[rng.Intn(8)]
+					d = append(d[:a], append(append([]byte{}, repl...), d[a+b+1:]...)...)
+					note("mut:json-element-of-other-type")
+				}
+			} else if a := bytes.IndexByte(d, ','); a >= 0 {
+				d = append(d[:a+1], append([]byte("null"), d[a+1:]...)...)
+				note("mut:insert-null-field")
+			}
 		case 0: // cut at any byte
 			if len(d) > 0 {
 				d = d[:rng.Intn(len(d))]
